@@ -45,7 +45,7 @@ DELIVER, for change k = {k0}..{k0+n-1}, a directory /tmp/seedout/{pid}-k/ contai
   demo.cpp     and  run.sh (the exact compile+run command line, parameterised by the tree path as $1, exit status = demo's)
   meta.json    {{"property": "{pid}", "clause_broken": "...", "what_changed": "...", "needs_to_manifest": "...",
                 "unit_tests_pass": true, "demo_fails_with_change": true, "demo_passes_without": true, "commands_run": ["..."]}}
-After saving each patch, restore the worktree (git -C /tmp/seed/{pid} checkout -- . ) before starting the next change.
+Never use `git stash` (the stash is shared by all worktrees of the repository). After saving each patch, restore the worktree (git -C /tmp/seed/{pid} checkout -- . ) before starting the next change.
 At the end leave the worktree clean (you may leave the _b build directory). Budget: about 45 minutes.
 Final answer: 3-4 lines per change (what, why it passes the tests, what it needs to manifest)."""
 os.makedirs('/tmp/seed', exist_ok=True)
